@@ -199,9 +199,9 @@ Qed.
 Record nested_builds {K} (p : pool) (T : reader_tables) (nb : nbuild K) (l : list attr) : Prop := mkNBs {
   nbs_code : forall nidx len ms ml code nexc exc attrs, In (AtCode nidx len ms ml code nexc exc attrs) l ->
       let stc := spec_plains p (rt_code T) (t_interests (rt_code T)) attrs l_init in
-      exists k, nb_code nb (frame_sources stc) (loop_events (rt_code T) stc) = Ok k;
+      exists k, nb_code nb (frame_sources stc) (loop_events (rt_code T) (t_interests (rt_code T)) stc) = Ok k;
   nbs_rc : forall nidx len comps c, In (AtRecord nidx len comps) l -> In c comps ->
-      exists k, nb_rc nb (loop_events (rt_rc T) (spec_plains p (rt_rc T) (t_interests (rt_rc T)) (snd c) l_init)) = Ok k;
+      exists k, nb_rc nb (loop_events (rt_rc T) (t_interests (rt_rc T)) (spec_plains p (rt_rc T) (t_interests (rt_rc T)) (snd c) l_init)) = Ok k;
 }.
 
 Lemma nested_builds_tail {K} p T (nb : nbuild K) a l : nested_builds p T nb (a :: l) -> nested_builds p T nb l.
@@ -216,7 +216,7 @@ Lemma rcs_step {K} T ct ac (nb : nbuild K) p attr row V :
   act_full ct attr <> None -> (exists o, act_full ct attr = Some (ARecord o)) ->
   assoc attr (ac_visits ac) = Some V -> find_row V (ac_builder ac) = Some row -> b_mode row = MPush ->
   forall comps st b filled cb,
-    (forall c, In c comps -> exists k, nb_rc nb (loop_events (rt_rc T) (spec_plains p (rt_rc T) (t_interests (rt_rc T)) (snd c) l_init)) = Ok k) ->
+    (forall c, In c comps -> exists k, nb_rc nb (loop_events (rt_rc T) (t_interests (rt_rc T)) (spec_plains p (rt_rc T) (t_interests (rt_rc T)) (snd c) l_init)) = Ok k) ->
     Built ct ac nb st b -> P1 ct ac st b filled cb ->
     exists b', Built ct ac nb (spec_rcs p T (v_full T) attr comps st) b' /\ P1 ct ac (spec_rcs p T (v_full T) attr comps st) b' filled cb.
 Proof.
@@ -225,7 +225,7 @@ Proof.
   - unfold spec_rcs. cbn [fold_left]. fold (spec_rcs p T (v_full T) attr comps (push_rc p T (v_full T) attr st c)).
     destruct (Hn c (or_introl eq_refl)) as (k & Hk).
     set (e := spec_rc p T (v_full T) attr (l_rc st) c).
-    assert (He : e = ERc attr (l_rc st) (fst (fst c)) (snd (fst c)) (Some (loop_events (rt_rc T) (spec_plains p (rt_rc T) (t_interests (rt_rc T)) (snd c) l_init)))).
+    assert (He : e = ERc attr (l_rc st) (fst (fst c)) (snd (fst c)) (Some (loop_events (rt_rc T) (t_interests (rt_rc T)) (spec_plains p (rt_rc T) (t_interests (rt_rc T)) (snd c) l_init)))).
     { unfold e, spec_rc. cbn [v_full v_rc]. reflexivity. }
     set (b1 := mkTI (it_flags b) (it_slots b) (it_unknown b) (it_code b) (it_rcs b ++ [(fst (fst c), snd (fst c), k)])).
     assert (Hstep : build_step false ct ac nb b e = Ok b1).
@@ -430,14 +430,15 @@ Proof.
   - intros H. destruct (str_eqb v v'); [discriminate|exact (IH H)].
 Qed.
 
-Lemma deferred_phase {K} ct ac AT (nb : nbuild K) st :
+Lemma deferred_phase {K} ct ac AT (nb : nbuild K) m st :
   ctx_facts ct ac AT -> ctx_build_ok ct ac = true -> slots_inv ct st ->
   forall slots b done,
     (forall s, In s slots -> mem s (t_deferred ct) = true) ->
     nodup_b slots = true -> (forall s, In s slots -> mem s done = false) ->
     P2 ct ac b done ->
     exists b' done', fold_res (build_step false ct ac nb)
-                       (flat_map (fun slot => match slot_sources ct st slot with [] => [] | srcs => [EDeferred slot srcs] end) slots) b = Ok b'
+                       (flat_map (fun slot => if table_delivered ct m slot (slot_sources ct st slot)
+                                              then [EDeferred slot (slot_sources ct st slot)] else []) slots) b = Ok b'
                      /\ P2 ct ac b' done'.
 Proof.
   intros CF Hbo Hsl. apply andb_prop in Hbo as [_ Hdis].
@@ -447,10 +448,12 @@ Proof.
     cbn [flat_map]. rewrite fold_res_app.
     assert (Hrest : forall b1 done1, P2 ct ac b1 done1 -> (forall s, In s slots -> mem s done1 = false) ->
               exists b' done', fold_res (build_step false ct ac nb)
-                  (flat_map (fun slot => match slot_sources ct st slot with [] => [] | srcs => [EDeferred slot srcs] end) slots) b1 = Ok b' /\ P2 ct ac b' done').
+                  (flat_map (fun slot => if table_delivered ct m slot (slot_sources ct st slot)
+                                         then [EDeferred slot (slot_sources ct st slot)] else []) slots) b1 = Ok b' /\ P2 ct ac b' done').
     { intros b1 done1 H1 H2. apply (IH b1 done1); try assumption. intros s Hs. apply Hin. right. exact Hs. }
-    destruct (slot_sources ct st slot) as [|x srcs] eqn:Esrc.
-    + cbn [fold_res]. apply (Hrest b done HP). intros s Hs. apply Hnot. right. exact Hs.
+    destruct (table_delivered ct m slot (slot_sources ct st slot)) eqn:Edel.
+    2: { cbn [fold_res]. apply (Hrest b done HP). intros s Hs. apply Hnot. right. exact Hs. }
+    destruct (slot_sources ct st slot) as [|x srcs] eqn:Esrc; [discriminate Edel|].
     + (* one table *)
       pose proof (cf_cov _ _ _ CF) as Hcov. unfold arms_covered in Hcov. apply andb_prop in Hcov as [_ Hcov].
       assert (Hmem : In slot (t_deferred ct)).
@@ -500,7 +503,7 @@ Proof. intros s H. unfold mem. apply existsb_exists. exists s. split; [exact H|a
 Lemma item_fold_builds {K} p T AT k ct except ac (nb : nbuild K) kc l :
   ctx_ok ct except = true -> ctx_facts ct ac AT -> ctx_build_ok ct ac = true -> (Struct.is_method k = true -> kc = Some (t_interests (rt_code T))) ->
   forallb (wf_attr_b p T k ct) l = true -> once_attrs_b p ct ac l = true -> nested_builds p T nb l ->
-  exists b it, fold_res (build_step false ct ac nb) (loop_events ct (spec_attrs p T (v_full T) ct (t_interests ct) kc l l_init)) empty_item = Ok b
+  exists b it, fold_res (build_step false ct ac nb) (loop_events ct (t_interests ct) (spec_attrs p T (v_full T) ct (t_interests ct) kc l l_init)) empty_item = Ok b
                /\ finish_item ct ac b = Ok it.
 Proof.
   intros Hct CF Hbo Hkc Hwf Honce Hn.
@@ -515,10 +518,10 @@ Proof.
   assert (HP2 : P2 ct ac b1 []).
   { constructor; [|exact (p1_flags _ _ _ _ _ _ HP1)]. intros f v Hv. left.
     destruct (p1_slots _ _ _ _ _ _ HP1 f v Hv) as [Hm _]. exact (p1_named _ _ _ _ _ _ HP1 f Hm). }
-  destruct (deferred_phase ct ac AT nb stf CF Hbo Hsl (t_deferred ct) b1 [] (nodup_b_in_mem _) Hnd (fun _ _ => eq_refl) HP2)
+  destruct (deferred_phase ct ac AT nb (t_interests ct) stf CF Hbo Hsl (t_deferred ct) b1 [] (nodup_b_in_mem _) Hnd (fun _ _ => eq_refl) HP2)
     as (b2 & done & Hf2 & HP2').
   unfold loop_events. rewrite fold_res_app. unfold Built in HB1. rewrite HB1. cbv iota beta.
-  rewrite fold_res_app. unfold deferred_events. rewrite Hf2. cbv iota beta.
+  rewrite fold_res_app. unfold deferred_events. cbv zeta. rewrite Hf2. cbv iota beta.
   destruct (t_flags_event ct) eqn:Etf.
   - cbn [fold_res build_step]. rewrite Etf, (p2_flags _ _ _ _ HP2').
     eexists. eexists. split; [reflexivity|]. unfold finish_item. cbn [it_flags]. rewrite Etf. reflexivity.
@@ -528,7 +531,7 @@ Qed.
 Lemma item_builds {K} p T AT k ct except ac (nb : nbuild K) kc l :
   ctx_ok ct except = true -> ctx_facts ct ac AT -> ctx_build_ok ct ac = true -> (Struct.is_method k = true -> kc = Some (t_interests (rt_code T))) ->
   forallb (wf_attr_b p T k ct) l = true -> once_attrs_b p ct ac l = true -> nested_builds p T nb l ->
-  exists it, build_item false ct ac nb (loop_events ct (spec_attrs p T (v_full T) ct (t_interests ct) kc l l_init)) = Ok it.
+  exists it, build_item false ct ac nb (loop_events ct (t_interests ct) (spec_attrs p T (v_full T) ct (t_interests ct) kc l l_init)) = Ok it.
 Proof.
   intros Hct CF Hbo Hkc Hwf Honce Hn.
   destruct (item_fold_builds p T AT k ct except ac nb kc l Hct CF Hbo Hkc Hwf Honce Hn) as (b & it & Hf & Hfin).
@@ -558,7 +561,7 @@ Qed.
 Lemma leaf_builds p (T : reader_tables) AT ct except ac l :
   ctx_ok ct except = true -> ctx_facts ct ac AT -> ctx_build_ok ct ac = true ->
   wf_pattrs_b p ct l = true -> once_pattrs_b p ct ac l = true ->
-  exists it, build_item false ct ac nb0 (loop_events ct (spec_plains p ct (t_interests ct) l l_init)) = Ok it.
+  exists it, build_item false ct ac nb0 (loop_events ct (t_interests ct) (spec_plains p ct (t_interests ct) l l_init)) = Ok it.
 Proof.
   intros Hct CF Hbo Hwf Honce.
   rewrite <- (spec_attrs_plains p T (v_full T) ct (t_interests ct) (Some (t_interests (rt_code T))) l l_init).
@@ -589,7 +592,7 @@ Qed.
 Lemma code_builds p T AT attrs : tok T -> afacts T AT -> bfacts T AT ->
   wf_pattrs_b p (rt_code T) attrs = true -> once_pattrs_b p (rt_code T) (at_code AT) attrs = true ->
   let stc := spec_plains p (rt_code T) (t_interests (rt_code T)) attrs l_init in
-  exists k, build_code false T AT (frame_sources stc) (loop_events (rt_code T) stc) = Ok k.
+  exists k, build_code false T AT (frame_sources stc) (loop_events (rt_code T) (t_interests (rt_code T)) stc) = Ok k.
 Proof.
   intros HT AF BF Hwf Honce stc. unfold build_code.
   assert (Hsl : slots_inv (rt_code T) stc).
@@ -601,7 +604,7 @@ Qed.
 
 Lemma rc_builds p T AT attrs : tok T -> afacts T AT -> bfacts T AT ->
   wf_pattrs_b p (rt_rc T) attrs = true -> once_pattrs_b p (rt_rc T) (at_rc AT) attrs = true ->
-  exists k, build_rc false T AT (loop_events (rt_rc T) (spec_plains p (rt_rc T) (t_interests (rt_rc T)) attrs l_init)) = Ok k.
+  exists k, build_rc false T AT (loop_events (rt_rc T) (t_interests (rt_rc T)) (spec_plains p (rt_rc T) (t_interests (rt_rc T)) attrs l_init)) = Ok k.
 Proof.
   intros HT AF BF Hwf Honce. unfold build_rc.
   exact (leaf_builds p T AT (rt_rc T) [] (at_rc AT) attrs (tk_rc T HT) (af_rc _ _ AF) (bf_rc _ _ BF) Hwf Honce).
@@ -737,7 +740,7 @@ Proof.
               (nested_builds1 p T AT KClass (rt_class T) (c_attrs c) HT AF BF Hwfc HdeepC)) as (b & it & Hfold & Hfin).
   destruct (fields_built_spec p T AT HT AF BF (c_fields c) 0%nat Hwff HoF) as (fs & Hfs).
   destruct (methods_built_spec p T AT HT AF BF (c_methods c) 0%nat Hwfm HoM) as (ms & Hms).
-  set (L := loop_events (rt_class T) (spec_attrs p T (v_full T) (rt_class T) (t_interests (rt_class T)) None (c_attrs c) l_init)) in *.
+  set (L := loop_events (rt_class T) (t_interests (rt_class T)) (spec_attrs p T (v_full T) (rt_class T) (t_interests (rt_class T)) None (c_attrs c) l_init)) in *.
   set (F := spec_members false (spec_field p T (v_full T)) 0 (c_fields c)) in *.
   set (M := spec_members false (spec_method p T (v_full T)) 0 (c_methods c)) in *.
   assert (HL : forallb not_member L = true) by (apply loop_not_member; apply attrs_not_member; reflexivity).
